@@ -110,6 +110,12 @@ CLAIMED["C10"] = {
     "technique": "property-based testing with harness-owned schedules: invariant over task executions + differential across schedules",
 }
 
+CLAIMED["C11"] = {
+    "text": "Hypothesis RuleBasedStateMachine HISTORIES (<= 25 steps quick, up to 40 thorough) over a pool of dask collections each mirrored by a NumPy copy: new (from_array, pristine source copy kept) / derive (slices incl. negative steps, arithmetic, reductions, transpose, rechunk, copy, persist, asarray, comparisons, boolean-mask selections with unknown chunks) / x[key] = value (ints, slices of all signs and steps, Ellipsis, None, int lists, NumPy and dask int/bool index arrays, full-shape NumPy and dask masks incl. masks derived from the target; scalar, broadcast NumPy, dask, slice-of-pool-member and np.ma.masked values; deliberately invalid assignments) / ufuncs with out= and where= / compute_chunk_sizes / compute / joint compute / drop. After every mutating step and at the end: the target equals NumPy's result of the same assignment (values, shape, dtype, mask), EVERY other live collection (derived before or after, ancestors, unrelated, persisted) still equals its mirror, and every source array equals its pristine copy; one third of the checks compute all members jointly through one merged graph. " + EXPL,
+    "note": "Assignment forms dask_array refuses loudly at assignment time are classes, not failures (the pool must still be unchanged afterwards); when NumPy rejects the mirror assignment dask_array must raise at assignment or at the next compute of the target. A generator cap bounds nested x[k] = x[j] depth (graph construction cost grows as blocks**depth).",
+    "technique": "stateful property-based testing (Hypothesis rule-based state machine): NumPy reference model + pool-wide invariant after every in-place step",
+}
+
 CLAIMED["C06"] = {
     "text": "Process-long HISTORIES of small programs from a deliberately collision-prone family (12 re-created source arrays, few chunkings, seeded random arrays, slice chains reaching one region by different routes, rechunks to one target from different parents, persisted results); a per-process registry maps every node name (raw/simplified/lowered/fused/materialised forms) to (shape, chunks, dtype) and every array-valued graph key (optimised and un-fused graphs, own executor) to a value digest; any re-mint with other metadata or digest is a violation, replayed as the pair of programs. " + EXPL,
     "note": "Only array-valued task results enter the key registry; user-pinned names are not generated (their uniqueness is the caller's duty); conflicts needing three or more programs would be reported but not shrunk below the pair.",
